@@ -81,9 +81,12 @@ def _is_num(v: Any) -> bool:
     return isinstance(v, (int, float)) and not isinstance(v, bool)
 
 
+DRAFT4 = [False]     # set per case by schema_ok(..., draft4=True): draft-04 'integer' does not admit 1.0
+
+
 def _type_ok(t: str, v: Any) -> bool:
     if t == 'integer':
-        return _is_num(v) and (isinstance(v, int) or v.is_integer())
+        return _is_num(v) and (isinstance(v, int) or (v.is_integer() and not DRAFT4[0]))
     if t == 'number':
         return _is_num(v)
     if t == 'string':
@@ -114,7 +117,16 @@ def _ipv4(v: str) -> bool:
     return len(parts) == 4 and all(p.isdigit() and 0 <= int(p) <= 255 for p in parts)
 
 
-def schema_ok(s: Dict[str, Any], v: Any, formats: bool = False) -> bool:
+def schema_ok(s: Dict[str, Any], v: Any, formats: bool = False, draft4: bool = False) -> bool:
+    """draft4: the schema declares "$schema": draft-04 - of the generated vocabulary only 'integer' differs (1.0 is not an integer there)"""
+    DRAFT4[0] = draft4
+    try:
+        return _schema_ok(s, v, formats)
+    finally:
+        DRAFT4[0] = False
+
+
+def _schema_ok(s: Dict[str, Any], v: Any, formats: bool = False) -> bool:
     if formats and s.get('format') == 'ipv4' and isinstance(v, str) and not _ipv4(v):
         return False
     if 'type' in s:
@@ -130,7 +142,7 @@ def schema_ok(s: Dict[str, Any], v: Any, formats: bool = False) -> bool:
             return False
     if isinstance(v, str) and 'minLength' in s and len(v) < s['minLength']:
         return False
-    if isinstance(v, (list, tuple)) and 'items' in s and not all(schema_ok(s['items'], x, formats) for x in v):
+    if isinstance(v, (list, tuple)) and 'items' in s and not all(_schema_ok(s['items'], x, formats) for x in v):
         return False
     if isinstance(v, dict):
         for k in s.get('required', []):
@@ -139,7 +151,7 @@ def schema_ok(s: Dict[str, Any], v: Any, formats: bool = False) -> bool:
         props = s.get('properties', {})
         for k, x in v.items():
             if k in props:
-                if not schema_ok(props[k], x, formats):
+                if not _schema_ok(props[k], x, formats):
                     return False
             elif s.get('additionalProperties', True) is False:
                 return False
@@ -198,14 +210,14 @@ class C14(Check):
     )
     assumptions = [
         "pydantic's TypeAdapter judges type conformance / conversion (trusted); pjrpc's model building, binding, error path and argument passing are under test",
-        "JSON-schema semantics: draft-07 (integer admits 1.0; booleans are not numbers; enum by JSON equality)",
+        "JSON-schema semantics: draft-07 (integer admits 1.0; booleans are not numbers; enum by JSON equality) unless the schema declares draft-04 in '$schema' (there 1.0 is not an integer)",
         "parameters excluded by predicate either have a default or are supplied by a functools.wraps decorator (both styles appear in the repository's examples)",
     ]
     trusted_base = ['pydantic.TypeAdapter', 'reference JSON-schema evaluator in checks/c14.py', 'python call binding']
     required_classes = ['validator/jsonschema', 'validator/pydantic', 'coerce/on', 'coerce/off', 'outcome/executed', 'outcome/refused-by-binding',
                         'outcome/refused-by-validation', 'flavour/func', 'flavour/view', 'ctx/yes', 'excluded/yes', 'excluded/injected-without-default', 'attack/excluded-name-supplied',
                         'converted', 'type/vmodel-rejects', 'passing/positional', 'passing/named', 'dispatcher/async', 'sibling-same-name-served-first', 'format/checked', 'format/not-checked',
-                        'jsonschema/validator-wide-default-schema', 'type/annotated-constraint']
+                        'jsonschema/validator-wide-default-schema', 'jsonschema/declares-draft-04', 'type/annotated-constraint']
 
     def strategy(self, tier: str):
         s_kind = st.sampled_from(['PK', 'PK', 'KO'])
@@ -277,6 +289,10 @@ class C14(Check):
                     top['required'] = [nm for i, nm in enumerate(names) if draw(s_bits) >> i & 1]
                 if draw(st.integers(0, 3)) == 0:
                     top['additionalProperties'] = False
+                if draw(st.integers(0, 4)) == 0:
+                    top['$schema'] = 'http://json-schema.org/draft-04/schema#'     # the schema declares its own dialect
+                    if top.get('required') == []:
+                        del top['required']      # an empty `required` array is not a valid draft-04 schema
             case_ = {'dispatcher': draw(st.sampled_from(['sync', 'sync', 'async'])), 'validator': validator, 'flavour': flavour, 'ctx': ctx,
                      'excluded': excluded, 'coerce': draw(s_bool), 'params': params, 'top': top, 'args': args}
             if excluded:
@@ -309,6 +325,10 @@ class C14(Check):
              'params': [{'name': 'p0', 'kind': 'KO', 'type': 'bounded', 'default': {'value': 3}}], 'args': {'value': {'p0': -1}}},
             {'dispatcher': 'sync', 'validator': 'jsonschema', 'flavour': 'func', 'ctx': False, 'excluded': False, 'coerce': False, 'validator_default_schema': True,
              'top': {'required': ['p0']}, 'params': [{'name': 'p0', 'kind': 'PK', 'schema': 0}], 'args': {'value': {'p0': 'not-an-integer'}}},
+            {'dispatcher': 'sync', 'validator': 'jsonschema', 'flavour': 'func', 'ctx': False, 'excluded': False, 'coerce': False,
+             'top': {'$schema': 'http://json-schema.org/draft-04/schema#'}, 'params': [{'name': 'p0', 'kind': 'PK', 'schema': 0}], 'args': {'value': [1.0]}},
+            {'dispatcher': 'async', 'validator': 'jsonschema', 'flavour': 'view', 'ctx': False, 'excluded': False, 'coerce': False,
+             'top': {'$schema': 'http://json-schema.org/draft-04/schema#'}, 'params': [{'name': 'p0', 'kind': 'PK', 'schema': 11}], 'args': {'value': {'p0': [1, 2.0]}}},
             {'dispatcher': 'sync', 'validator': 'jsonschema', 'flavour': 'func', 'ctx': True, 'excluded': False, 'coerce': False,
              'top': {'required': ['p0'], 'additionalProperties': False}, 'params': [{'name': 'p0', 'kind': 'PK', 'schema': 0}, {'name': 'p1', 'kind': 'PK', 'schema': 10, 'default': {'value': 'ab'}}],
              'args': {'value': [1.0, 'a']}},
@@ -420,7 +440,7 @@ class C14(Check):
         if spec['validator'] == 'jsonschema':
             schema = {'type': 'object', 'properties': {p['name']: SCHEMAS[p['schema']] for p in params}, **spec['top']}
             explicit_args = {k: v for k, v in raw.items() if k in explicit}
-            if not schema_ok(schema, explicit_args, formats=bool(spec.get('format_checker'))):
+            if not schema_ok(schema, explicit_args, formats=bool(spec.get('format_checker')), draft4='$schema' in spec['top']):
                 return 'validation', None
             expected = {k: describe(v) for k, v in raw.items()}
         else:
@@ -505,6 +525,8 @@ class C14(Check):
             classes.append('coerce/on' if spec['coerce'] else 'coerce/off')
         if spec.get('validator_default_schema'):
             classes.append('jsonschema/validator-wide-default-schema')
+        if '$schema' in spec.get('top', {}):
+            classes.append('jsonschema/declares-draft-04')
         if any(p.get('type') == 'bounded' for p in spec['params']):
             classes.append('type/annotated-constraint')
         pv = spec['args'].get('value')
